@@ -16,6 +16,157 @@ from vf import kinds, sess, tlc
 from vf.common import InfraError, mkdir
 
 
+def family_events(ctx, wd):
+    """C03 on generated schemas: spec/Population_GenFault.tla puts one violation of every class at the first and the
+    last place it applies in a conforming population; the library reader and the reference tool (both built against
+    the schema's generated library) read the file; every other instance must come back with its values."""
+    from checks import c01
+    from vf import build, express, p21
+    from vf.common import REPO, sha
+    cases = []
+    g = tlc.run_tlc("Population_GenFault", None, workers=4, timeout=900, on_case=cases.append,
+                    cfg_text="CONSTANTS Deep = %s Rounds = %d\nINIT Init\nNEXT Next\nINVARIANT Emit\n" % ("FALSE" if ctx.quick else "TRUE", 0 if ctx.quick else 2))
+    if g.rc != 0 or g.errors:
+        raise InfraError("Population_GenFault failed: %s" % g.tail[-10:])
+    by = {}
+    for c in cases:
+        by.setdefault(json.dumps(c["choice"], sort_keys=True), []).append(c)
+    keys = sorted(by)
+    if ctx.quick:
+        strata = {}
+        for k in keys:
+            ch = json.loads(k)
+            strata.setdefault((ch["inh"], ch["ts"]["k"], ch["ts"].get("of", "")), []).append(k)
+        keys = sorted(v[len(v) // 2] for v in strata.values())
+
+    def inst_text(i):
+        return "#%d=%s(%s);" % (i["id"], i["ent"].upper(), ",".join(c01.aval(p) for p in i["params"]))
+
+    def refs_of(v, acc):
+        if v["k"] == "ref":
+            acc.add(v["id"])
+        elif v["k"] == "typed":
+            refs_of(v["v"], acc)
+        elif v["k"] == "list":
+            for x in v["items"]:
+                refs_of(x, acc)
+        return acc
+
+    def one(k):
+        cs = by[k]
+        txt = express.render(cs[0]["schema"])
+        tag0 = "c02_" + sha(txt)[:10]
+        try:
+            lib = build.schema_lib(tag0, txt)
+            drv = build.link_driver("session_" + tag0, [c01.DRV], schema=lib)
+            tool = build.link_driver("p21read_" + tag0, [os.path.join(REPO, "src", "test", "p21read", "p21read.cc"),
+                                                       os.path.join(REPO, "src", "test", "p21read", "sc_benchmark.cc")], schema=lib,
+                                     extra_flags=["-I" + os.path.join(REPO, "src", "test", "p21read")])
+        except build.BuildFailure as ex:
+            return k, None, str(ex)[-400:]
+        bwd = mkdir(os.path.join(wd, "fam_" + sha(k)[:8]))
+        scripts, metas = [], []
+        head = "ISO-10303-21;\n" + p21.HEADER % cs[0]["schema"]["name"].upper() + "DATA;\n"
+        for c in cs:
+            base = {i["id"]: inst_text(i) for i in c["pop"]}
+            for fi, f in enumerate(sorted(c["faults"], key=lambda f: (f["class"], f["i"], f["j"]))):
+                lines = []
+                for q, inst in enumerate(c["pop"]):
+                    t = inst_text(f["inst"]) if q + 1 == f["i"] else inst_text(inst)
+                    if q + 1 == f["i"] and f["class"] == "unterminated_inst":
+                        t = t[:-1]
+                    if q + 1 == f["i"] and f["class"] == "unterminated_str":
+                        sv = c01.aval(inst["params"][f["j"] - 1])
+                        t = t.replace(sv, sv[:-1], 1) if sv.endswith("'") and len(sv) > 1 else t
+                    lines.append(t)
+                text = head + "\n".join(lines) + "\nENDSEC;\nEND-ISO-10303-21;\n"
+                fid = c["pop"][f["i"] - 1]["id"]
+                # instances that must come back intact: all but the faulty one, those that refer to it, and the rest of
+                # the damaged region (an unterminated instance also damages its successor, an unterminated string
+                # everything after it); a duplicate id leaves two instances with that id in doubt
+                damaged = {fid}
+                if f["class"] == "unterminated_inst" and f["i"] < len(c["pop"]):
+                    damaged.add(c["pop"][f["i"]]["id"])
+                if f["class"] == "unterminated_str":
+                    damaged |= {x["id"] for x in c["pop"][f["i"] - 1:]}
+                if f["class"] == "dup_id":
+                    damaged.add(c["pop"][0]["id"])
+                for inst in c["pop"]:
+                    rs = set()
+                    for pv in inst["params"]:
+                        refs_of(pv, rs)
+                    if rs & damaged:
+                        damaged.add(inst["id"])
+                for _ in range(3):      # referrers of referrers
+                    for inst in c["pop"]:
+                        rs = set()
+                        for pv in inst["params"]:
+                            refs_of(pv, rs)
+                        if rs & damaged:
+                            damaged.add(inst["id"])
+                intact = {i: t for i, t in base.items() if i not in damaged}
+                t2 = "X%s_%d_%d" % (sha(k)[:8], c["n"], fi)
+                fp = os.path.join(bwd, t2 + ".p21")
+                open(fp, "w").write(text)
+                op = os.path.join(bwd, t2 + "_o.p21")
+                scripts.append((t2, ["new 0", "read " + fp, "states", "writenv " + op]))
+                metas.append((t2, f, fp, op, intact, text, k))
+        res = sess.run_scripts(drv, scripts, bwd, timeout=600)
+        evs = []
+        for t2, f, fp, op, intact, text, kk in metas:
+            try:
+                pr = subprocess.run([tool, fp, os.path.join(bwd, t2 + ".tool")], stdout=subprocess.DEVNULL, stderr=subprocess.DEVNULL, timeout=60, cwd=bwd)
+                te = pr.returncode
+            except subprocess.TimeoutExpired:
+                te = 124
+            r = res.get(t2, [])
+            rd = r[1] if len(r) > 1 else {}
+            ev = {"e": "Fault", "class": f["class"], "kind": "generated", "pos": f["j"], "lit": "", "place": "inst%d" % f["i"], "tag": t2, "toolexit": te}
+            if rd.get("cmd") != "read":
+                ev.update({"sev": 9, "exit": 0, "confined": False, "why": "library reader crashed: %s" % json.dumps(rd)[:200]})
+            else:
+                ev["sev"] = rd["esev"]
+                ev["exit"] = 1 if rd["esev"] <= 1 else 0
+                ok, why = True, ""
+                try:
+                    got = {}
+                    otext = open(op, errors="replace").read()
+                    try:
+                        data = p21.parse(otext)["data"]
+                    except p21.P21Error:
+                        import re
+                        data = []
+                        for m in re.finditer(r"(?m)^#(\d+)=(.*?);$", otext, flags=re.S):
+                            try:
+                                data.append(p21.Parser("#%s=%s;" % (m.group(1), m.group(2))).instance(False))
+                            except p21.P21Error:
+                                pass
+                    for x in data:
+                        got.setdefault(x["id"], []).append(x)
+                    for i, t in intact.items():
+                        want = p21.Parser(t).instance(False)
+                        g1 = got.get(i, [])
+                        if len(g1) != 1 or [p[0] for p in g1[0]["parts"]] != [p[0] for p in want["parts"]] or \
+                                not all(len(a[1]) == len(b[1]) and all(c01.same_value(u, v) for u, v in zip(a[1], b[1]))
+                                        for a, b in zip(want["parts"], g1[0]["parts"])):
+                            ok, why = False, "#%d is %s, file has %s" % (i, [p21.render_instance(z) for z in g1], t)
+                            break
+                except OSError as ex:
+                    ok, why = False, "no output: %s" % ex
+                ev["confined"], ev["why"] = ok, why
+            evs.append((json.dumps(ev), (f, text, kk)))
+        shutil.rmtree(bwd, ignore_errors=True)
+        return k, evs, ""
+    out = []
+    with cf.ThreadPoolExecutor(max_workers=3) as ex:
+        for k, evs, err in ex.map(one, keys):
+            if evs is None:
+                ctx.violation("family-build|" + k, "generated library of a family schema does not build: " + err[-200:], {"choice": k})
+                continue
+            out.extend(evs)
+    return out, len(keys)
+
+
 def run(ctx):
     cov = {}
     drv = kinds.driver()
@@ -71,6 +222,11 @@ def run(ctx):
             else:
                 ev["confined"], ev["why"] = kinds.intact_ok(out, intact)
         lines.append(json.dumps(ev))
+    fam, nfam = family_events(ctx, wd)
+    fmeta = {}
+    for ln, m in fam:
+        fmeta[json.loads(ln)["tag"]] = m
+        lines.append(ln)
     trace = os.path.join(wd, "trace.ndjson")
     open(trace, "w").write("\n".join(lines) + "\n")
     got = []
@@ -79,6 +235,13 @@ def run(ctx):
         raise InfraError("P21Read_Trace did not consume the record: rc=%s %s" % (r.rc, r.tail[-12:]))
     for rep in got:
         ev = rep["ev"]
+        if ev["tag"] in fmeta:
+            f, text, kk = fmeta[ev["tag"]]
+            ctx.violation("family|%s|%s|%s|i%dj%d" % (rep["what"], ev["class"], kk, f["i"], f["j"]),
+                          "generated schema: %s for %s at instance %d parameter %d -> severity %s, tool exit %s%s" % (
+                              rep["what"], ev["class"], f["i"], f["j"], ev["sev"], ev["toolexit"], "; " + ev.get("why", "") if rep["what"] == "confinement" else ""),
+                          {"schema": kk, "fault": f, "file": text, "event": ev})
+            continue
         c, f, out, intact, itxt, text = meta[ev["tag"]]
         key = "%s|%s|%s|%s|pos%s|%s" % (rep["what"], ev["class"], ev["kind"], ev["lit"], ev["pos"], ev["place"])
         ctx.violation(key, "%s: #%s=%s (%s) -> severity %s, tool exit %s%s" % (
@@ -86,7 +249,7 @@ def run(ctx):
             "; " + ev.get("why", "") if rep["what"] == "confinement" else ""),
             {"case": c, "file": text, "event": ev})
     shutil.rmtree(wd, ignore_errors=True)
-    cov.update({"cases": len(cases), "disagreeing_events": len(got),
+    cov.update({"cases": len(cases), "disagreeing_events": len(got), "generated_schema_family": {"schemas": nfam, "fault_files": len(fam)},
                 "samples": [json.loads(lines[0]), {"file": meta["0"][5]}],
                 "evaluations": len(lines), "distinct_nontrivial": len(lines),
                 "rule": "fault class (15) x attribute kind x parameter position x place of the faulty instance "
